@@ -458,3 +458,46 @@ harness! {
         }
     }
 }
+
+// ---------------------------------------------------------------------------
+// zero-sized elements: every slice length up to usize::MAX and every size (the lock-step harnesses above stop at len 8).
+// Items of a ZST slice have no address: lengths are compared.  Two steps of symbolic direction per family.
+
+macro_rules! c08_zst_family {
+    ($name:ident, $ctor:ident, $ob:literal $(, rem = $obr:literal)?) => {
+        harness! {
+            /// kind=bounded tier=quick bound="zero-sized elements: every slice length 0..=usize::MAX, size in {1, 2, 3, isize::MAX-1, isize::MAX, isize::MAX+1, usize::MAX}; one step of symbolic direction (and the remainder length of the exact variants) against the real core::slice iterator, item lengths compared"
+            fn $name(s) {
+                static BIG: [(); usize::MAX] = [(); usize::MAX];
+                let len = s.usize();
+                let sl: &[()] = &BIG[..len];
+                // a symbolic 64-bit divisor makes the div/mod equivalence intractable for CBMC: the size is drawn from the
+                // values around which the arithmetic can go wrong
+                let n = match s.upto(6) {
+                    0 => 1,
+                    1 => 2,
+                    2 => 3,
+                    3 => isize::MAX as usize - 1,
+                    4 => isize::MAX as usize,
+                    5 => isize::MAX as usize + 1,
+                    _ => usize::MAX,
+                };
+                let k = konst::slice::$ctor(sl, n);
+                let mut st = sl.$ctor(n);
+                $( chk!(s, k.copy().remainder().len() == st.remainder().len(), $obr); )?
+                let (ki, si) = if s.bool() {
+                    (k.next().map(|(x, _)| x.len()), st.next().map(|x| x.len()))
+                } else {
+                    (k.next_back().map(|(x, _)| x.len()), st.next_back().map(|x| x.len()))
+                };
+                chk!(s, ki == si, $ob);
+                cov!(s, len > isize::MAX as usize && n > isize::MAX as usize && n < len, "C08.cover.zst_len_and_size_beyond_isize_max");
+            }
+        }
+    };
+}
+c08_zst_family! {c08_zst_any_len_windows, windows, "C08.zst.windows.step_eq_std"}
+c08_zst_family! {c08_zst_any_len_chunks, chunks, "C08.zst.chunks.step_eq_std"}
+c08_zst_family! {c08_zst_any_len_rchunks, rchunks, "C08.zst.rchunks.step_eq_std"}
+c08_zst_family! {c08_zst_any_len_chunks_exact, chunks_exact, "C08.zst.chunks_exact.step_eq_std", rem = "C08.zst.chunks_exact.remainder_len_eq_std"}
+c08_zst_family! {c08_zst_any_len_rchunks_exact, rchunks_exact, "C08.zst.rchunks_exact.step_eq_std", rem = "C08.zst.rchunks_exact.remainder_len_eq_std"}
